@@ -56,6 +56,9 @@ type Prog struct {
 	e1    *e1Result
 	e3    *e3Result
 	e3b   *[]E3bIssue
+	onceBody map[*ssa.Function]*ssa.Function
+	byName   map[string]*ssa.Function
+	single   map[*ssa.Function]bool
 	e3bSerialised int
 	e4    *e4Result
 	e5    *e5Result
@@ -186,6 +189,7 @@ func Load(conf Config) (*Prog, error) {
 	if len(p.Funcs) < 500 {
 		return nil, fmt.Errorf("load: only %d in-scope functions (expected >= 500)", len(p.Funcs))
 	}
+	p.onceBodies()
 	return p, nil
 }
 
@@ -235,9 +239,82 @@ func (p *Prog) InScope(fn *ssa.Function) bool {
 
 // FuncName gives a stable construct key for a function:
 // "protocol/xpair.(*socket).AddPipe", closures as "...AddPipe$1".
+// onceBodies: methods whose only use in the module is as the bound-method value handed to
+// a sync.Once.Do (`o.Do(p.shutdown)`), mapped to the function that makes that call.  Such a
+// method plays exactly the role of the closure in `o.Do(func() {…})` and is named and
+// treated like one (parent$1), so that turning the closure into a method changes nothing.
+func (p *Prog) onceBodies() map[*ssa.Function]*ssa.Function {
+	if p.onceBody != nil {
+		return p.onceBody
+	}
+	p.onceBody = map[*ssa.Function]*ssa.Function{}
+	cand := map[*ssa.Function]*ssa.Function{}
+	for fn := range p.All {
+		if !p.moduleFunc(fn) || fn.Blocks == nil {
+			continue
+		}
+		EachInstr(fn, func(in ssa.Instruction) {
+			c := CallOf(in)
+			if c == nil {
+				return
+			}
+			f, _, ok := isOnceDo(c)
+			if !ok || f == nil {
+				return
+			}
+			if t := unwrapBound(f); t != nil && t != f {
+				if _, dup := cand[t]; dup {
+					cand[t] = nil
+				} else {
+					cand[t] = fn
+				}
+			}
+		})
+	}
+	cg := p.CG()
+	for m, parent := range cand {
+		if parent == nil || len(parent.AnonFuncs) != 0 {
+			continue
+		}
+		ok := true
+		if n := cg.Nodes[m]; n != nil {
+			for _, e := range n.In {
+				if unwrapBound(e.Caller.Func) != m {
+					ok = false // called from somewhere else as well
+				}
+			}
+		}
+		if ok {
+			p.onceBody[m] = parent
+		}
+	}
+	return p.onceBody
+}
+
+// unwrapBound: the method a synthetic bound-method wrapper calls (fn itself otherwise).
+func unwrapBound(fn *ssa.Function) *ssa.Function {
+	if fn == nil || !strings.Contains(fn.Synthetic, "bound method wrapper") {
+		return fn
+	}
+	var t *ssa.Function
+	EachInstr(fn, func(in ssa.Instruction) {
+		if c := CallOf(in); c != nil {
+			if sc := c.StaticCallee(); sc != nil {
+				t = sc
+			}
+		}
+	})
+	return t
+}
+
 func (p *Prog) FuncName(fn *ssa.Function) string {
 	if fn == nil {
 		return "<nil>"
+	}
+	if p.onceBody != nil {
+		if parent, ok := p.onceBody[fn]; ok {
+			return p.FuncName(parent) + "$1"
+		}
 	}
 	if fn.Parent() != nil {
 		return p.FuncName(fn.Parent()) + strings.TrimPrefix(fn.Name(), fn.Parent().Name())
